@@ -48,8 +48,7 @@ def extract(ck):
             raise X.ExtractError("rng is not a two-element list")
         lo, hi = X.lean_expr(rng[0]), X.lean_expr(rng[1])
     except X.ExtractError as e:
-        ck.tie_fail("extraction of _calculate_ranges failed: %s" % e)
-        return False
+        return bool(ck.tie_fallback("C20", "extraction of _calculate_ranges failed: %s" % e, default=False))
     ck.gen("C20", "namespace QV.Gen.C20\n\n"
            "/-- first index of the block of `rank` (transcribed from `_calculate_ranges`) -/\n"
            "def rangeLo (size rank start stop : Int) : Int :=\n  %s\n\n"
